@@ -299,6 +299,11 @@ func stats(c *hx.Ctx, d *ldoc) {
 	if d.Edge {
 		c.Count(d.Format + "-edge-attribute-document")
 	}
+	if d.Body != "" {
+		c.Count(d.Format + "-body-style-document:" + d.Body)
+	}
+	shared := d.outlineStyled()
+	outlineSeen := map[string]bool{} // body styles a direct-outline heading has used so far
 	prevLi := -1             // level of the list item before, -1 = the list starts here
 	used := map[string]int{} // family styles used so far in document order (body and cells)
 	seenMulti := false
@@ -315,6 +320,12 @@ func stats(c *hx.Ctx, d *ldoc) {
 							if id := cell.Paras[i].Fam; id != "" {
 								used[id]++
 								c.Count(d.Format + "-cell-paragraph-in-family-style")
+							}
+							if v := cell.Paras[i].Via; v != "" {
+								c.Count(d.Format + "-cell-paragraph-in-body-style")
+								if _, ok := shared[v]; ok {
+									c.Count(d.Format + "-cell-paragraph-in-the-style-of-a-direct-outline-heading")
+								}
 							}
 						}
 					}
@@ -371,6 +382,31 @@ func stats(c *hx.Ctx, d *ldoc) {
 		}
 		if bl.P.Kind == "h" {
 			c.Count(d.Format + "-heading-via-" + bl.P.Via)
+		}
+		if p := bl.P; p.Kind == "h" && p.Via == "outline" && p.Plain != "" {
+			c.Count(d.Format + "-direct-outline-heading-in-body-style:" + p.Plain)
+			if outlineSeen[p.Plain] {
+				c.Count(d.Format + "-direct-outline-heading-in-a-style-used-by-one-before")
+			}
+			outlineSeen[p.Plain] = true
+		}
+		if p := bl.P; p.Kind == "p" {
+			if _, ok := shared[p.Via]; ok && p.Via != "" {
+				if outlineSeen[p.Via] {
+					c.Count(d.Format + "-plain-paragraph-after-direct-outline-heading-in-its-style")
+				} else {
+					c.Count(d.Format + "-plain-paragraph-before-direct-outline-heading-in-its-style")
+				}
+			}
+			if p.Via == "undef" || p.Via == "normal" {
+				c.Count(d.Format + "-plain-paragraph-in-style-" + p.Via)
+			}
+			if p.Jc != "" {
+				c.Count("docx-paragraph-with-direct-jc/spacing/ind")
+			}
+			if p.Out9 {
+				c.Count("docx-paragraph-with-direct-outlineLvl-9")
+			}
 		}
 		if d.Fam != nil && bl.P.Kind == "h" {
 			id := bl.P.Fam
@@ -621,7 +657,26 @@ func witnessDocs() []*ldoc {
 		// spans and levels at and beyond the edges
 		edgeWitness("docx"),
 		edgeWitness("odt"),
+		// a paragraph of the body text made a heading by a direct outline level, between
+		// plain paragraphs (and a table) written in the same body style
+		outlineWitness("docx"),
+		outlineWitness("odt"),
 	}
+}
+
+func outlineWitness(F string) *ldoc {
+	tb := &ltable{R: 1, C: 2, Cells: map[[2]int]*lcell{{0, 0}: oneCell("W005x"), {0, 1}: oneCell("W006x")}, Cover: map[[2]int][2]int{}}
+	tb.Cells[[2]int{0, 1}].Paras[0].Via = "undef"
+	return &ldoc{Format: F, Body: "undef", Blocks: []lblock{
+		{P: &lpara{Kind: "p", Via: "undef", Runs: tx("W001x")}},
+		{P: &lpara{Kind: "h", Level: 2, Via: "outline", Plain: "undef", Runs: tx("W002x")}},
+		{P: &lpara{Kind: "p", Via: "undef", Runs: tx("W003x")}},
+		{P: &lpara{Kind: "p", Via: "quote", Runs: tx("W004x")}},
+		{T: tb},
+		{P: &lpara{Kind: "h", Level: 5, Via: "outline", Plain: "quote", Runs: tx("W007x")}},
+		{P: &lpara{Kind: "p", Via: "undef", Runs: tx("W008x")}},
+		{P: &lpara{Kind: "p", Via: "quote", Runs: tx("W009x")}},
+	}}
 }
 
 // edgeWitness: a row of cells whose span attributes say 1 (written out), 0, -1, 1025, 2^31-1
@@ -731,7 +786,9 @@ func init() { hx.Register("C16", Run, Replay) }
 func Run(c *hx.Ctx) {
 	c.Rep.Rule = "random logical documents (1..12 blocks: paragraphs with 1..4 runs/spans of mixed inline content incl. hyperlink/ins/sdt wrappers, " +
 		"headings via built-in/custom/inherited/name/outline/cyclic styles, in a third of the styled documents a style family (1-2 root heading styles, 2-5 custom styles derived from them 1-3 deep, " +
-		"each inheriting or overriding the level with an outline level of its own) whose styles are used by headings and table-cell paragraphs in random order and repetition, multi-level lists, tables with multi-paragraph cells, merges and nested tables, " +
+		"each inheriting or overriding the level with an outline level of its own) whose styles are used by headings and table-cell paragraphs in random order and repetition, " +
+		"in half of the documents a body style (italic, bold 11 pt, in a basedOn cycle, not defined in the styles part, or the default style named explicitly) in which most plain paragraphs, a third of the cell paragraphs and " +
+		"headings made by a DIRECT outline level (w:outlineLvl in the paragraph's own properties / text:h) are written, before and after one another and repeatedly, DOCX paragraphs also with direct w:jc/w:spacing/w:ind and with w:outlineLvl 9 (body text), multi-level lists, tables with multi-paragraph cells, merges and nested tables, " +
 		"optional styles/numbering/header/footer/meta parts, shuffled part order); plus documents of 1..3 tables that COMBINE merges (2..5 rows x 3..6 grid columns, 1..3 vertical merges of 2..4 rows placed at random, " +
 		"then every row partitioned on its own into cells 1..3 columns wide, so the rows a vertical merge runs through hold different numbers of cells to its left: column span in the start row only, in a continuation row only, in both with other widths) " +
 		"between paragraphs, headings and plain tables; plus documents about numeric attributes at the edges of their range (w:gridSpan, number-columns-spanned, number-rows-spanned, " +
